@@ -9,13 +9,13 @@ import os, sys, re, json, time, random, subprocess, importlib, traceback, hashli
 HERE = os.path.dirname(os.path.abspath(__file__))
 ROOT = os.path.dirname(HERE)
 sys.path.insert(0, HERE)
-sys.path.insert(0, "/repo")
-os.environ.setdefault("PYTHONPATH", "/repo")
+REPO = os.environ.get("VERIF_REPO", "/repo")
+sys.path.insert(0, REPO)
+os.environ.setdefault("PYTHONPATH", REPO)
 os.environ.setdefault("OMP_NUM_THREADS", "2")
 import vlib
 
 LEAN_DIR = os.path.join(ROOT, "lean")
-REPO = "/repo"
 ALLOWED_AXIOMS = {"propext", "Classical.choice", "Quot.sound"}
 FORBIDDEN = re.compile(r"\b(sorry|admit|native_decide|bv_decide|implemented_by)\b|^\s*axiom\s|unsafe\s|maxHeartbeats\s+0")
 
